@@ -70,8 +70,17 @@ def insert_subtier(kg, ins):
         name = "%s [x%d]" % (kit.name, ins[2])
         lo = kit.minTimestamp if kit.minTimestamp is not None else (kg.minTimestamp or 0)
         hi = kit.maxTimestamp if kit.maxTimestamp is not None else (kg.maxTimestamp or 1.0)
-        kit.addTier(KlattSubPointTier(name, [(lo + (hi - lo) / 4, 1800.0 + ins[2]), (lo + (hi - lo) / 2, 1750.125)], lo, hi),
-                    idx if idx < len(kit.tierNameList) else None)
+        times, values = [lo + (hi - lo) / 4, lo + (hi - lo) / 2], [1800.0 + ins[2], 1750.125]
+        entries = zip(times, values) if ins[2] % 2 else list(zip(times, values))  # the points may arrive as a one-shot iterable
+        sub = KlattSubPointTier(name, entries, lo, hi)
+        kit.addTier(sub, idx if idx < len(kit.tierNameList) else None)
+        held = [(float(t), float(v)) for t, v in sub.entries]
+        if held != list(zip(times, values)):
+            REC.violation(PROP, "kg.save", "KlattSubPointTier", {"call": "kg.subtier", "times": times, "values": values, "one_shot": bool(ins[2] % 2)},
+                          "a sub-tier built from %s of %d points holds %r" % ("a one-shot iterable" if ins[2] % 2 else "a list", len(times), held),
+                          ("subtier-points",), {"op": "kg.subtier"})
+        else:
+            REC.held("kg.save", ("subtier-points", bool(ins[2] % 2)), None, None)
         REC.cls("C19:subtier-inserted-at-index")
         _current["inserted"] = [cont.name, kit.name, name]
     except Exception as e:
@@ -531,6 +540,11 @@ def _workload(tier, rng, shard, nshards, work):
         npts = rng.choice([0, 0, 1, 2, 3, 5, 9])
         ts = sorted({rng.choice([rng.uniform(lo, hi), lo + rng.randrange(0, 1000) / 1000 * (hi - lo), float(rng.randrange(int(lo) + 1, int(hi) + 1)) if hi >= 2 else rng.uniform(lo, hi), 5e-05 + lo]) for _ in range(npts)})
         pts = [(t,) for t in ts] if klass == "PointProcess" else [(t, rand_value(rng)) for t in ts]
+        if klass != "PointProcess" and pts and k % 9 == 0:
+            # a step: two values at one time, the second one smaller (the order in the file is the order of the object)
+            j = rng.randrange(len(pts))
+            pts[j:j + 1] = [(pts[j][0], 210.0), (pts[j][0], 95.5)]
+            REC.cls("C19:po:two-values-at-one-time")
         style = rng.choice(["plain", "plain", "exp"])
         opener = data_points.open1DPointObject if klass == "PointProcess" else data_points.open2DPointObject
         objs = {}
@@ -629,6 +643,15 @@ def replay(v, work):
                 with open(fn, "w", encoding="utf-8") as fd:
                     fd.write(K.write_point_object(c["klass"], c["lo"], c["hi"], [tuple(p) for p in c["pts"]], lf))
                 call(data_points.open1DPointObject if c["klass"] == "PointProcess" else data_points.open2DPointObject, fn)
+        elif c["call"] == "kg.subtier":
+            from praatio.data_classes.klattgrid import KlattSubPointTier
+
+            pts = zip(c["times"], c["values"]) if c["one_shot"] else list(zip(c["times"], c["values"]))
+            sub = KlattSubPointTier("x [1]", pts, min(c["times"]), max(c["times"]))
+            if [(float(t), float(v)) for t, v in sub.entries] != list(zip(c["times"], c["values"])):
+                REC.violation(PROP, "kg.save", "KlattSubPointTier", c, "a sub-tier built from an iterable of points does not hold them", ("subtier-points",), {"op": "kg.subtier"})
+            else:
+                REC.held("kg.save", ("subtier-points",), None, None)
         elif c["call"] == "kg.save" and c.get("snapshot"):
             call(rebuild_kg(c["snapshot"], c.get("inserted")).save, os.path.join(str(work), "replay_out.KlattGrid"))
         elif c["call"] == "kg.modify":
